@@ -44,3 +44,14 @@ def keyword_flag_default_shadows_call_dialect(v):
     without the keyword: the outer method forwards its own compiled default for the flag, which
     overrides D.omit_none / D.serialize_by_alias."""
     return v.get("facts", {}).get("explained_by") == "F25"
+
+
+@predicate
+def format_method_mutual_recursion(v):
+    """F07: two classes on a non-dict format mixin that reference each other, one of them also referencing itself:
+    the secondary `to_dict_<format>` / `from_dict_<format>` method of a class is rebuilt while it is already being
+    built when reached again through the other class -> RecursionError (at class creation or on the first call)."""
+    f = v.get("facts", {})
+    ft = f.get("features") or {}
+    return (f.get("kind") == "RecursionError" and bool(ft.get("cycle")) and bool(ft.get("self_ref"))
+            and ft.get("mixin") in ("orjson", "msgpack", "orjson+msgpack"))
